@@ -24,13 +24,21 @@ const sentinelSub = "zz-end"
 // collects everything the handler sends; the final sentinel COUNT makes the
 // end observable (the handler is sequential).
 func runSession(h mocrelay.Handler, msgs []mocrelay.ClientMsg, timeout time.Duration) (outs []mocrelay.ServerMsg, complete bool) {
+	return runSessionWith(h, msgs, timeout, sentinelSub)
+}
+
+func runSessionWith(h mocrelay.Handler, msgs []mocrelay.ClientMsg, timeout time.Duration, sentinel string) (outs []mocrelay.ServerMsg, complete bool) {
+	isSentinel := func(m mocrelay.ServerMsg) bool {
+		c, ok := m.(*mocrelay.ServerCountMsg)
+		return ok && c.SubscriptionID == sentinel
+	}
 	ctx, cancel := context.WithCancel(context.Background())
 	defer cancel()
 	send := make(chan mocrelay.ServerMsg)
 	recv := make(chan mocrelay.ClientMsg)
 	done := make(chan struct{})
 	go func() { h.ServeNostr(ctx, send, recv); close(done) }()
-	all := append(append([]mocrelay.ClientMsg{}, msgs...), &mocrelay.ClientCountMsg{SubscriptionID: sentinelSub, ReqFilters: []*mocrelay.ReqFilter{{}}})
+	all := append(append([]mocrelay.ClientMsg{}, msgs...), &mocrelay.ClientCountMsg{SubscriptionID: sentinel, ReqFilters: []*mocrelay.ReqFilter{{}}})
 	go func() {
 		for _, m := range all {
 			select {
@@ -44,13 +52,15 @@ func runSession(h mocrelay.Handler, msgs []mocrelay.ClientMsg, timeout time.Dura
 	for {
 		select {
 		case m := <-send:
-			if c, ok := m.(*mocrelay.ServerCountMsg); ok && c.SubscriptionID == sentinelSub {
-				outs = append(outs, m)
+			outs = append(outs, m)
+			if isSentinel(m) {
 				cancel()
-				<-done
+				select {
+				case <-done:
+				case <-time.After(3 * time.Second):
+				}
 				return outs, true
 			}
-			outs = append(outs, m)
 		case <-deadline:
 			cancel()
 			return outs, false
